@@ -200,6 +200,18 @@ theorem new_file_only_when_needed (S : Int) (s : Sink) (m : Msg) (hlen : s.state
         | true => exact absurd ((rotationSize_iff _ _ _ _).mp hb) h
       simp [hk, h]
 
+/-- `rotation_starts_fresh_file`: a rotation closes the current file for good (it joins `closed`
+unchanged) and the message goes alone into a new, empty file – the sink never reopens the full file
+(regenerated shape: `_create_file` remembers the path as `_create_path()` produced it, which is what
+`_terminate_file` compares to decide the rename, whatever symbolic links the path goes through) -/
+theorem rotation_starts_fresh_file (ls : List Leaf) (s : Sink) (m : Msg)
+    (hrot : (groupCall ls s.states
+      { ctime := s.creation, stamp := m.stamp, bytes := m.bytes, chars := m.chars, tell := s.cur.size }).1 = true) :
+    filePathIsCreatedPath = true ∧
+    (Sink.write ls s m).closed = s.closed ++ [s.cur] ∧
+    (Sink.write ls s m).cur = { initial := 0, msgs := [(s.next, m.disk)] } := by
+  refine ⟨by decide, ?_, ?_⟩ <;> simp [Sink.write, hrot]
+
 /-- former finding F4, now a regression theorem: limit 16, messages of 5 characters / 9 bytes –
 every file stays within 16 bytes (one message per file), evaluated on the generated kernel -/
 theorem size_bound_regression :
